@@ -15,6 +15,8 @@ import Driver.Staging
 import Driver.Raptor
 import Driver.Pipeline
 import Driver.NodeList
+import Driver.JsrunSched
+import Driver.Timeout
 open Lean
 
 /-- line protocol: one JSON op per input line, one canonical JSON answer per line -/
@@ -44,6 +46,8 @@ def main (args : List String) : IO UInt32 := do
   | ["staging"] => loop stdin Driver.Staging.handle; return 0
   | ["raptor"] => loop stdin Driver.Raptor.handle; return 0
   | ["pipeline"] => loop stdin Driver.Pipeline.handle; return 0
+  | ["timeout"] => loop stdin Driver.Timeout.handle; return 0
+  | ["jsrunsched"] => loop stdin Driver.JsrunSched.handle; return 0
   | ["nodelist"] => loop stdin Driver.NodeList.handle; return 0
   | ["cause"] => loop stdin Driver.AgentCause.handle; return 0
   | _ => IO.eprintln "usage: rpmodel <suite>"; return 2
